@@ -224,6 +224,13 @@ func run(id, tier string, seed int64, rp *Replay, only, onlyCfg string, par int)
 		fatal(2, "bad units.json: %v", err)
 	}
 	bdir := filepath.Join(verifRoot, "build", id)
+	evDir := filepath.Join(verifRoot, "evidence")
+	if repoRoot != "/repo" {
+		// a scratch copy of the repository (mutant / seeded-defect runs):
+		// separate build directory, and the evidence of /repo is left alone
+		bdir = filepath.Join(verifRoot, "build", id+".alt-"+filepath.Base(repoRoot))
+		evDir = filepath.Join(bdir, "evidence")
+	}
 	os.RemoveAll(filepath.Join(bdir, "run"))
 	os.MkdirAll(filepath.Join(bdir, "run"), 0o755)
 	// modfile copy
@@ -467,9 +474,9 @@ func run(id, tier string, seed int64, rp *Replay, only, onlyCfg string, par int)
 
 	// ---- verdict
 	sort.Strings(keys)
-	os.MkdirAll(filepath.Join(verifRoot, "evidence", "replay"), 0o755)
+	os.MkdirAll(filepath.Join(evDir, "replay"), 0o755)
 	// remove old replay files of this property
-	old, _ := filepath.Glob(filepath.Join(verifRoot, "evidence", "replay", id+"-*.json"))
+	old, _ := filepath.Glob(filepath.Join(evDir, "replay", id+"-*.json"))
 	for _, f := range old {
 		os.Remove(f)
 	}
@@ -489,7 +496,7 @@ func run(id, tier string, seed int64, rp *Replay, only, onlyCfg string, par int)
 			nknown++
 			continue
 		}
-		path := filepath.Join(verifRoot, "evidence", "replay", fmt.Sprintf("%s-%d.json", id, i))
+		path := filepath.Join(evDir, "replay", fmt.Sprintf("%s-%d.json", id, i))
 		rd := Replay{Property: id, Key: k, Unit: r.job.unit.Name, Cfg: r.job.cfg, Batch: r.job.batch, Seed: seed, Tier: tier, Monitor: r.v.Monitor, Detail: r.v.Detail}
 		b, _ := json.MarshalIndent(rd, "", " ")
 		os.WriteFile(path, b, 0o644)
@@ -557,7 +564,7 @@ func run(id, tier string, seed int64, rp *Replay, only, onlyCfg string, par int)
 		"wall_s": round1(time.Since(t0).Seconds()), "violations": nviol,
 	}
 	eb, _ := json.MarshalIndent(ev, "", " ")
-	os.WriteFile(filepath.Join(verifRoot, "evidence", id+".json"), eb, 0o644)
+	os.WriteFile(filepath.Join(evDir, id+".json"), eb, 0o644)
 
 	if nviol > 0 {
 		return 1
